@@ -27,9 +27,9 @@ type mRec struct {
 }
 
 type mPeer struct {
-	addrs     map[int]*mEntry
-	rec       *mRec // the signed record that is currently retrievable, nil if none
-	recKey    string // identity of that record (which envelope was accepted last)
+	addrs  map[int]*mEntry
+	rec    *mRec  // the signed record that is currently retrievable, nil if none
+	recKey string // identity of that record (which envelope was accepted last)
 	// deadSince: the first collector tick instant from which on the peer's remains are garbage; meaningful
 	// only while len(addrs)==0. Last address expired at e: e (a collector running at e removes it). Last
 	// address removed by a write at w: w+1 (a collector tick at w ran before the write). never: the peer
